@@ -420,6 +420,24 @@ func logCorpus() []logBatch {
 	scA2 := &instrumentation.Scope{Name: "lib/a", Version: "v1", SchemaURL: "urn:s", Attributes: attribute.NewSet()}
 	out = append(out, logBatch{recs: []sdklog.Record{mk(1, res1, scA).newRecord(), mk(2, res1, scA2).newRecord(), mk(3, res1, scA).newRecord(),
 		mk(4, res3, scA2).newRecord(), mk(5, res1, scA2).newRecord()}, nres: 2, nscopes: 2})
+	// large collections: a record with 130 attributes, a body slice / map with 130 members, 130 records in one scope
+	bigR := mk(1, res3, scB)
+	bigR.Attributes = nil
+	var vals []log.Value
+	var kvs []log.KeyValue
+	for i := 0; i < 130; i++ {
+		bigR.Attributes = append(bigR.Attributes, log.Int(fmt.Sprintf("k%03d", i), i))
+		vals = append(vals, log.Int64Value(int64(i)))
+		kvs = append(kvs, log.Int(fmt.Sprintf("m%03d", i), i))
+	}
+	bigR.Body = log.SliceValue(vals...)
+	bigM := mk(2, res3, scB)
+	bigM.Body = log.MapValue(kvs...)
+	manyRecs := []sdklog.Record{bigR.newRecord(), bigM.newRecord()}
+	for i := 0; i < 130; i++ {
+		manyRecs = append(manyRecs, mk(10+i, res3, scB).newRecord())
+	}
+	out = append(out, logBatch{recs: manyRecs, nres: 1, nscopes: 1})
 	// exporter-level path: an empty batch
 	out = append(out, logBatch{})
 	// severity table and ids
